@@ -26,25 +26,27 @@ import (
 
 type bigCase struct {
 	Seed   uint64 `json:"seed"`
-	Sizes  []int  `json:"sizes"`  // number of exported functions of host module m ("hm<m>")
-	Subset bool   `json:"subset"` // guest imports a PRNG subset (always with the boundary indexes) instead of everything
+	Sizes  []int  `json:"sizes"`           // number of exported functions of host module m ("hm<m>")
+	Subset bool   `json:"subset"`          // guest imports a PRNG subset (always with the boundary indexes) instead of everything
+	Mixed  bool   `json:"mixed,omitempty"` // mixed import section with a decoy type 0 (mixed.go)
 	Class  string `json:"class"`
 }
 
 type bigResult struct {
-	Findings     []finding        `json:"findings,omitempty"`
-	Engines      int              `json:"engines"`
-	Calls        int64            `json:"calls"`
-	CallsGE256   int64            `json:"calls_ge256"`
-	HostFuncs    int64            `json:"host_funcs"`
-	Imports      int64            `json:"imports"`
-	Modules      int              `json:"modules"`
-	Values       int64            `json:"values"`
-	ByStyle      map[string]int64 `json:"by_style"`
-	ByForm       map[string]int64 `json:"by_form"`
-	Probed       []string         `json:"probed,omitempty"` // boundary indexes that were called
-	BuildErr     string           `json:"build_err,omitempty"`
-	Inconclusive string           `json:"inconclusive,omitempty"`
+	Findings      []finding        `json:"findings,omitempty"`
+	Engines       int              `json:"engines"`
+	Calls         int64            `json:"calls"`
+	CallsGE256    int64            `json:"calls_ge256"`
+	CallsShadowed int64            `json:"calls_shadowed,omitempty"` // calls to function imports that follow a non-function import with the same per-kind index
+	HostFuncs     int64            `json:"host_funcs"`
+	Imports       int64            `json:"imports"`
+	Modules       int              `json:"modules"`
+	Values        int64            `json:"values"`
+	ByStyle       map[string]int64 `json:"by_style"`
+	ByForm        map[string]int64 `json:"by_form"`
+	Probed        []string         `json:"probed,omitempty"` // boundary indexes that were called
+	BuildErr      string           `json:"build_err,omitempty"`
+	Inconclusive  string           `json:"inconclusive,omitempty"`
 }
 
 type bigShape struct{ P, R []T }
@@ -279,12 +281,27 @@ func runBig(tc *bigCase) *bigResult {
 		imports[i], imports[k] = imports[k], imports[i]
 	}
 	gm := &wenc.Module{}
-	for _, f := range imports {
+	addImp := func(i int) {
+		f := imports[i]
 		sh := bigShapes[f.Shape]
 		gm.ImportFunc(fmt.Sprintf("hm%d", f.M), fmt.Sprintf("f%d", f.J), sh.P, sh.R)
 	}
+	shadowed := make([]bool, len(imports))
+	if tc.Mixed {
+		gm.AddType([]T{wenc.F64, wenc.F64, wenc.F64}, nil) // decoy type 0: none of the shapes
+		shadowed = addMixedImports(gm, core.NewRng(int64(tc.Seed), 88), len(imports), addImp)
+	} else {
+		for i := range imports {
+			addImp(i)
+		}
+	}
+	isShadowed := map[string]bool{}
 	var probes, mustProbes []bigProbe
 	for i, f := range imports {
+		if shadowed[i] {
+			must[[2]int{f.M, f.J}] = true
+			isShadowed[fmt.Sprintf("w%d_%d", f.M, f.J)] = true
+		}
 		sh := bigShapes[f.Shape]
 		c := &wenc.Code{}
 		for p := range sh.P {
@@ -327,6 +344,9 @@ func runBig(tc *bigCase) *bigResult {
 		if p.f.J >= 256 {
 			cls = "index>=256"
 		}
+		if isShadowed[p.name] {
+			cls = "function-import-after-non-function-import"
+		}
 		sig := fmt.Sprintf("large-host-module:%s:%s:%s", what, cls, eng)
 		if seen[sig] {
 			return
@@ -362,9 +382,29 @@ func runBig(tc *bigCase) *bigResult {
 			res.HostFuncs += int64(len(fs))
 		}
 		var guest api.Module
+		if ok && tc.Mixed {
+			if _, err := rt.InstantiateWithConfig(ctx, provWasm, wazero.NewModuleConfig().WithName(provName)); err != nil {
+				res.BuildErr = fmt.Sprintf("%s provider: %v", eng, err)
+				ok = false
+			}
+		}
 		if ok {
 			var err error
-			guest, err = rt.InstantiateWithConfig(ctx, wasm, wazero.NewModuleConfig().WithName("big"))
+			func() {
+				defer func() {
+					if r := recover(); r != nil {
+						err = fmt.Errorf("panic while compiling/instantiating: %v", r)
+					}
+				}()
+				guest, err = rt.InstantiateWithConfig(ctx, wasm, wazero.NewModuleConfig().WithName("big"))
+			}()
+			if err != nil && tc.Mixed {
+				res.Findings = append(res.Findings, finding{Sig: "large-host-module:mixed-import-section:guest-does-not-build:" + eng,
+					Detail: core.Trunc(err.Error(), 500), Witness: map[string]any{"big_case": tc, "error": core.Trunc(err.Error(), 2000)}})
+				rt.Close(ctx)
+				res.Engines++
+				continue
+			}
 			if err != nil {
 				res.BuildErr = fmt.Sprintf("%s guest: %v", eng, err)
 				ok = false
@@ -418,6 +458,9 @@ func runBig(tc *bigCase) *bigResult {
 			res.Calls++
 			if p.f.J >= 256 {
 				res.CallsGE256++
+			}
+			if isShadowed[p.name] {
+				res.CallsShadowed++
 			}
 			res.ByStyle[p.f.Style]++
 			res.ByForm[form]++
@@ -532,6 +575,7 @@ func genBigCases(c *core.Ctx, r *core.Rng) []bigCase {
 			}
 			bc.Subset = r.Bool()
 		}
+		bc.Mixed = i%2 == 1
 		out = append(out, bc)
 	}
 	return out
